@@ -360,4 +360,69 @@ theorem C13_rmSeg_effect {nw : Network} {s s' : Schedule} {v : Veh} {a b : Nat}
        show assocGet? _ v = _
        rw [hutc, assocGet?_assocSet]; simp))
 
+/-- **C13 (`fit_reassign`)**: with a real provider `p ≠ r` and a real receiver — counted over activities,
+    the provider loses exactly the moved nodes, the receiver gains exactly them and loses none of its
+    own; both stay valid tours; a provider left without activities disappears -/
+theorem C13_fit_effect {nw : Network} (hn : NetHyp nw) {s s' : Schedule} {p r : Veh} {a b : Nat}
+    (hi : ListInv s) (hd : DummyInv s) (ho : ToursOK nw s.tours) (hdo : DummiesOK nw s.dummyTours)
+    (hne : p ≠ r) (hp : s.isVehicle p = true) (hr : s.isVehicle r = true)
+    (h : fitReassign nw s p r a b = .ok s') :
+    ∃ pt rt newProv newRecv moved,
+      assocGet? s.tours p = some pt ∧ assocGet? s.tours r = some rt ∧
+      assocGet? s'.tours r = some newRecv ∧ assocGet? s'.tours p = newProv ∧
+      (∀ n, shrunkOcc nw newProv n + occ nw moved n = occ nw pt.nodes n) ∧
+      (∀ n, occ nw newRecv.nodes n = occ nw rt.nodes n + occ nw moved n) ∧
+      TourOK nw newRecv ∧ (∀ t, newProv = some t → TourOK nw t) ∧
+      (newProv = none → assocGet? s'.vehicles p = none) := by
+  have hpd := vehicle_not_dummy hi hd hp
+  have hrd := vehicle_not_dummy hi hd hr
+  have key : ∀ {w : Work} {pt rt : Tour} {path : List Nat} {res : Option Tour × Tour × List Nat}
+      {site1 site2 : String},
+      unwrapO (s.tourOf? p) site1 = .ok pt → unwrapO (s.tourOf? r) site2 = .ok rt →
+      Tour.subPath nw pt a b = .ok path →
+      fitLoop nw (s.isDummy p && s.isVehicle r) (path.length + 1) (some pt) rt (some path) [] = .ok res →
+      updateTours nw s (Work.ofSchedule s) (some p) res.1 r res.2.1 res.2.2 = .ok w →
+      ∃ pt rt newProv newRecv moved,
+        assocGet? s.tours p = some pt ∧ assocGet? s.tours r = some rt ∧
+        assocGet? w.tours r = some newRecv ∧ assocGet? w.tours p = newProv ∧
+        (∀ n, shrunkOcc nw newProv n + occ nw moved n = occ nw pt.nodes n) ∧
+        (∀ n, occ nw newRecv.nodes n = occ nw rt.nodes n + occ nw moved n) ∧
+        TourOK nw newRecv ∧ (∀ t, newProv = some t → TourOK nw t) ∧
+        (newProv = none → assocGet? w.vehicles p = none) := by
+    intro w pt rt path res site1 site2 hpt' hrt' hsub hloop hut
+    have hpt0 := unwrapO_ok hpt'
+    have hrt0 := unwrapO_ok hrt'
+    have hpt := tourOf_not_dummy hpt0 hpd
+    have hrt := tourOf_not_dummy hrt0 hrd
+    obtain ⟨f1, f2, f3, f4, _, _⟩ := fit_loop_facts (newProv := res.1) (newRecv := res.2.1) (moved := res.2.2)
+      hn hi hd ho hdo hpt0 hrt0 hsub hloop
+    have hT := (updateTours_spec hut).1
+    have hV := C10Lim.updateTours_vehicles hut
+    refine ⟨pt, rt, res.1, res.2.1, res.2.2, hpt, hrt, ?_, ?_, f1 hpd, ?_, f4 hr, f3 hpd, ?_⟩
+    · rw [hT]; simp only [hrd, Bool.false_eq_true, ↓reduceIte]; rw [assocGet?_assocSet]; simp
+    · rw [hT]; simp only [hrd, Bool.false_eq_true, ↓reduceIte]
+      rw [get_set_ne _ _ _ _ hne]
+      unfold provTours
+      simp only [hpd, Bool.false_eq_true, ↓reduceIte]
+      cases res.1 with
+      | some t => dsimp only; rw [assocGet?_assocSet]; simp
+      | none => dsimp only; simp only [hp, ↓reduceIte]; rw [assocGet?_assocErase]; simp
+    · intro n
+      have := f2 hr n
+      simp only [occ_nil, Nat.add_zero] at this
+      exact this
+    · intro e
+      rw [hV, e]; unfold C10Lim.provVehicles
+      simp only [hpd, hp, Bool.false_eq_true, ↓reduceIte]
+      rw [assocGet?_assocErase]; simp
+  unfold fitReassign at h
+  inv_do h
+  all_goals (try contradiction)
+  all_goals (try (cases h))
+  all_goals (try (simp only [pure, Except.pure, Except.ok.injEq] at *))
+  all_goals (try subst_vars)
+  all_goals (
+    try dsimp only
+    exact key (by assumption) (by assumption) (by assumption) (by assumption) (by assumption))
+
 end RSSched.C13E
